@@ -367,6 +367,9 @@ def _parse_attribute_name(name: str) -> str:
 
     Attempts to replace special characters with their unicode names.
     """
+    # Python reads identifiers in normal form KC; use the same form, so that
+    # generated code declares the very attribute name used here.
+    name = unicodedata.normalize("NFKC", name)
 
     def _char_map(idx: int, char: str) -> str:
         if ("_" + char).isidentifier() or char in ("-", " "):
